@@ -402,6 +402,8 @@ RULES = {
     # been taken in this call"), `.write()` -> `.vwrite_free()` (requires that none has: std's RwLock deadlocks / panics on a write lock
     # taken by the thread that holds a read guard)
     "R44": [(".read()", ".vread_held()"), (".write()", ".vwrite_free()")],
+    # R45: `log_files.sort_unstable()` / `log_files.reverse()` on the Vec<PathBuf> of read_dir_related_files -> shims (`Ord for PathBuf` is an oracle order)
+    "R45": [("log_files.sort_unstable()", "vsort_unstable(&mut log_files)"), ("log_files.reverse()", "vreverse(&mut log_files)")],
     # R43 (computed + literal): check_timestamp_format: chrono's delayed formats -> opaque shims that remember how they were made, and
     # `write!(infix, "{}", <e>)` -> `vwrite_display(&mut infix, &(<e>))`
     "R43": [("now.naive_utc().format(format)", "vfmt_naive(format)"), ("now.format(format)", "vfmt_local(format)"),
